@@ -230,7 +230,14 @@ def run(ctx):  # noqa: C901, PLR0912, PLR0915
             # nothing at all is written for a skipped state
             writes = [n for n, t in _stores(g, {'ContextAssociation', 'UnbindingMdibVersion', 'BindingEndTime'})]
             skip_ok, w3 = w.implies(w.cond_any(writes), f'not ({sk[0]}) and not ({sk[1]})')
+            # every state that was marked is reported back to the caller (who writes exactly the returned handles): the
+            # handle is appended to the returned list under the same condition as the mark
+            rets_ = {unparse(r.value) for r in walk_no_nested(fi.node) if isinstance(r, ast.Return) and r.value is not None}
+            apps = [n for n, c in g.nodes_calling('append') if unparse(c.func.value) in rets_]
+            ok4 = len(apps) == 1 and w.cond(apps[0]) == w.cond(marks[0])
+            ok = ok and ok4
             wit = {'marked when': w.describe(w.cond(marks[0])), 'unbinding written when': w.describe(w.cond(unb[0])),
+                   'handle returned when': w.describe(w.cond(apps[0])) if apps else None,
                    'difference': w1 or w2 or w3}
         ctx.ob('C10.R3', f'{fi.cls.name}.disassociate_all marks', ok,
                'every state that is not yet (properly) disassociated is marked DISASSOCIATED; the unbinding version is '
